@@ -503,11 +503,11 @@ def other_form(form, lay, p):
         d.pre = ['@bytes=$ED,$4C']
         d.skip_asm = (0, 1)
     elif form == 'if_asm':
-        d.pre = ['@if({{asm}}>1)(isub={})'.format(lay.resolve(sized_op(s)))]
+        d.pre = ['@if({{asm}}>1)||isub={}||'.format(lay.resolve(sized_op(s)))]      # alternative delimiters: the operation contains a comma
         d.cond = lambda mode: mode[0] > 1
         d.final = lambda lay: [(_clone(i, sized_op(s), lay) if i.idx == p else _clone(i)) for i in ins]
     elif form == 'if_fix_else':
-        d.pre = ['@if({{fix}}>0)(ofix={},isub={})'.format(lay.resolve(sized_op(s + 1)), lay.resolve(sized_op(s)))]
+        d.pre = ['@if({{fix}}>0)||ofix={}|isub={}||'.format(lay.resolve(sized_op(s + 1)), lay.resolve(sized_op(s)))]
         d.cond = lambda mode: mode[1] > 0 or mode[0] > 0
         d.final = None      # set per mode in effect()
     elif form == 'if_label':
@@ -530,6 +530,7 @@ def other_form(form, lay, p):
     return d
 
 
+MODE_DEPENDENT = ('if_asm', 'if_fix_else', 'if_label', 'if_remove', 'isub_ofix')
 OTHER_FORMS = ['org_bare', 'org_same', 'org_hex', 'org_shift', 'org_gap', 'equ_const', 'equ_small', 'equ_hex', 'equ_addr', 'label', 'label_star',
                'label_blank', 'label_auto', 'keep', 'keep_val', 'nowarn', 'nowarn_val', 'defb', 'defs', 'defw', 'def_chain',
                'defb_here', 'bytes', 'if_asm', 'if_fix_else', 'if_label', 'if_remove', 'isub_ofix']
@@ -563,12 +564,14 @@ def skool_text(lay, d, p, labels_all, with_directive=True):
             out.append('; Entry {}'.format(i.entry))
             if i.entry == 0 and not (with_directive and d is not None and d.drop_org and p == 0):
                 out.append('@org')
-        if labels_all:
-            out.append('@label=LB{}'.format(i.idx))
         line = '{}{:05d} {:<13} ; comment {}'.format('c' if i.first else ' ', i.saddr, i.text, i.idx)
         cont = '                     ; and a second line' if i.idx == 1 else None
-        if with_directive and d is not None and i.idx == p:
+        here = with_directive and d is not None and i.idx == p
+        if here:
             out.extend(d.pre)
+        if labels_all:
+            out.append('@label=LB{}'.format(i.idx))     # after an inserted block, so that it labels the anchor
+        if here:
             out.extend(d.before_anchor)
             out.append(line)
             if cont:
@@ -975,7 +978,7 @@ def option_deviations(dmax):
     return seen
 
 
-def hosts(tier, xs=None, short=True):
+def hosts(tier, xs=None, short=True, splits=None):
     """Host files for the directive parts: (entries) lists."""
     out = []
     xs = xs or HOST_X
@@ -983,7 +986,7 @@ def hosts(tier, xs=None, short=True):
     for x in xs:
         for i2 in i2s:
             seq = [HOST_I0, x, i2]
-            for sp in (_splits(3) if tier == 'thorough' else [(3,), (1, 2), (2, 1)]):
+            for sp in splits or (_splits(3) if tier == 'thorough' else [(3,), (1, 2), (2, 1)]):
                 out.append(_entries(seq, sp))
     if short:
         for x in xs:
@@ -1010,24 +1013,31 @@ def groups(tier, seed):
     for n in range(1, n_max + 1):
         for seq in itertools.product(ALPHABET, repeat=n):
             for sp in _splits(n):
-                if n == 3 and len(sp) == 2:
-                    continue        # thorough, three instructions: one entry or three
-                o = opts_all if n < 3 else option_deviations(1)
+                if n < 3:
+                    o = opts_all
+                elif sp == (3,):
+                    o = option_deviations(1)
+                elif sp == (1, 1, 1):
+                    o = [dict(base='', case='', c=1), dict(base='-H', case='', c=1)]
+                else:
+                    continue
                 yield ('A', dict(base=base, entries=_entries(seq, sp)), [(1, 0)], o, False)
-    # ---- part P: directives other than single @*sub/@*fix x options
-    for ent in hosts(tier, HOST_X + HOST_X_P):
+    # ---- part P: directives other than single @*sub/@*fix.  Mode-independent forms: x all 18 options;
+    # mode-dependent forms (@if, two kinds on one instruction): x all 9 modes x label options
+    for ent in hosts(tier, HOST_X + HOST_X_P, short=tier == 'thorough', splits=None if tier == 'thorough' else [(3,), (1, 2)]):
         n = sum(len(e) for e in ent)
         for form in OTHER_FORMS:
+            gap = 1 if form == 'org_gap' else None
+            if gap is not None and len(ent) < 2:
+                continue
             for p in range(n):
-                for gap in ((1,) if form == 'org_gap' else (None,)):
-                    if gap is not None and len(ent) < 2:
-                        continue
-                    for mode in ([(1, 0), (3, 3)] if tier == 'quick' else MODES):
-                        for labels_all in (False, True):
-                            if tier == 'quick' and labels_all and form not in ('org_shift', 'if_fix_else', 'if_remove', 'isub_ofix', 'label', 'equ_addr'):
-                                continue
-                            yield ('P', dict(base=base, entries=ent, dname=form, p=p, labels_all=labels_all, gap_entry=gap), [mode],
-                                   opts_all if not labels_all else [o for o in opts_all if not o['c']], False)
+                if form in MODE_DEPENDENT:
+                    for la, c in lab_opts:
+                        yield ('P', dict(base=base, entries=ent, dname=form, p=p, labels_all=la, gap_entry=gap), MODES, [dict(base='', case='', c=c)], False)
+                else:
+                    yield ('P', dict(base=base, entries=ent, dname=form, p=p, gap_entry=gap), [(1, 0), (3, 3)] if tier == 'thorough' else [(1, 0)], opts_all, False)
+                    if form == 'org_shift':
+                        yield ('P', dict(base=base, entries=ent, dname=form, p=p, labels_all=True), [(1, 0)], [o for o in opts_all if not o['c']], False)
     # ---- part B: @*sub/@*fix forms
     if tier == 'quick':
         # B1: every form x every kind x every mode on the default host; B2: every form x every host, @rsub, in force or not
